@@ -306,7 +306,9 @@ ResSeqC13 == <<
   [name |-> "nj.js", aliases |-> {"njalias.js"}, redirectable |-> TRUE, perm |-> 0, kind |-> "application/javascript", content |-> "nj.js"],
   [name |-> "permcss", aliases |-> {}, redirectable |-> TRUE, perm |-> 2, kind |-> "text/css", content |-> "permcss"],
   [name |-> "al1", aliases |-> {}, redirectable |-> TRUE, perm |-> 0, kind |-> "text/plain", content |-> "late-al1"],
-  [name |-> "zz", aliases |-> {"r2"}, redirectable |-> TRUE, perm |-> 0, kind |-> "text/plain", content |-> "late-zz"]
+  [name |-> "zz", aliases |-> {"r2"}, redirectable |-> TRUE, perm |-> 0, kind |-> "text/plain", content |-> "late-zz"],
+  \* an ALIAS that re-uses an existing alias: refused, and the existing alias keeps pointing at r1
+  [name |-> "yy", aliases |-> {"al1"}, redirectable |-> TRUE, perm |-> 0, kind |-> "text/plain", content |-> "late-yy"]
 >>
 ResC13 == EffectiveStore(ResSeqC13)
 
